@@ -1591,3 +1591,67 @@ Theorem benign_finished asgi indep cs st q :
   forallb benign_comp cs = true -> benign_request q = true ->
   exists s, snd (run_request indep st q) = Finished s.
 Proof. intros H Bc Bq. rewrite (order_spec _ _ _ _ q H). apply spec_benign_finished; assumption. Qed.
+
+(* ------------------------------------------------------------------ definition styles *)
+From Falcon.C03 Require Import Styles.
+
+Lemma prepare_check_none asgi : forall cs,
+  prepare_check asgi cs = None ->
+  forallb (comp_ok asgi) (map sc_comp cs) = true /\ forallb (fun c => negb (comp_unbound c)) cs = true.
+Proof.
+  induction cs as [|c tl IH]; simpl; intro H; [auto|].
+  destruct (comp_unbound c); [discriminate|]. destruct (comp_ok asgi (sc_comp c)); [|discriminate].
+  simpl in *. apply IH. exact H.
+Qed.
+
+(* construction succeeds exactly when every present request-cycle method is bound and every
+   component is acceptable; otherwise it RAISES (AttributeError for an unbound definition,
+   TypeError for a method-less component) - nothing is silently skipped *)
+Theorem prepare_styled_ok asgi indep cs st :
+  prepare_styled asgi indep cs = inl st <->
+  prepare_check asgi cs = None /\ prepare asgi indep (map sc_comp cs) = Some st.
+Proof.
+  unfold prepare_styled. split.
+  - destruct (prepare_check asgi cs) eqn:E; [discriminate|].
+    destruct (prepare asgi indep (map sc_comp cs)) eqn:P; [|discriminate].
+    intro H. injection H as <-. auto.
+  - intros [-> ->]. reflexivity.
+Qed.
+
+Theorem prepare_check_complete asgi indep cs :
+  prepare_check asgi cs = None -> exists st, prepare asgi indep (map sc_comp cs) = Some st.
+Proof.
+  intro H. apply prepare_defined_iff. apply prepare_check_none in H. tauto.
+Qed.
+
+Theorem unbound_is_attribute_error asgi : forall cs,
+  prepare_check asgi cs = Some PEAttributeError <->
+  exists pre c post, cs = pre ++ c :: post /\ comp_unbound c = true /\ prepare_check asgi pre = None.
+Proof.
+  induction cs as [|c tl IH]; simpl.
+  - split; [discriminate|]. intros (pre & c & post & H & _). destruct pre; discriminate.
+  - destruct (comp_unbound c) eqn:U.
+    { split; [intros _; exists [], c, tl; auto|reflexivity]. }
+    destruct (comp_ok asgi (sc_comp c)) eqn:K; simpl.
+    + rewrite IH. split.
+      * intros (pre & c' & post & -> & Hu & Hp). exists (c :: pre), c', post. simpl. rewrite U, K. auto.
+      * intros (pre & c' & post & H & Hu & Hp). destruct pre as [|p pre'].
+        { simpl in H. injection H as -> ->. congruence. }
+        simpl in H. injection H as -> ->. simpl in Hp. rewrite U, K in Hp. simpl in Hp.
+        exists pre', c', post. auto.
+    + split; [discriminate|]. intros (pre & c' & post & H & Hu & Hp). destruct pre as [|p pre'].
+      { simpl in H. injection H as -> ->. congruence. }
+      simpl in H. injection H as -> ->. simpl in Hp. rewrite U, K in Hp. discriminate.
+Qed.
+
+(* the discipline for styled stacks: whatever way the methods are defined (among the bound
+   ways), the call order is that of the plain component list *)
+Theorem order_spec_styled asgi indep cs st q :
+  prepare_styled asgi indep cs = inl st ->
+  run_request indep st q = spec_trace indep (map sc_comp cs) q.
+Proof. intro H. apply prepare_styled_ok in H. destruct H as [_ H]. exact (order_spec _ _ _ _ q H). Qed.
+
+(* lifespan handlers of every style take part, in order *)
+Theorem lifespan_styled_spec cs msgs :
+  lifespan_styled cs msgs = spec_lifespan (map sc_comp cs) msgs.
+Proof. apply lifespan_spec. Qed.
